@@ -21,7 +21,12 @@ func C19(r *core.Run) {
 	hdir := filepath.Join(core.VerifDir(), "harness")
 	out := filepath.Join(core.VerifDir(), "bin", "wasmchk.wasm")
 	_ = os.MkdirAll(filepath.Dir(out), 0o755)
-	build := exec.Command("go", "build", "-tags", "verif", "-o", out, "./cmd/wasmchk")
+	args := []string{"build"}
+	if mf := os.Getenv("VERIF_MODFLAG"); mf != "" {
+		args = append(args, mf)
+	}
+	args = append(args, "-tags", "verif", "-o", out, "./cmd/wasmchk")
+	build := exec.Command("go", args...)
 	build.Dir = hdir
 	build.Env = append(os.Environ(), "GOOS=js", "GOARCH=wasm")
 	t0 := time.Now()
